@@ -137,11 +137,14 @@ def read_journal(path):
     J = [l.rstrip("\n") for l in open(path)]
     recs, events = [], []          # events: crashes / exceptions
     case, prob, cs, solved, ops, last_obj_rec, text = None, None, None, None, [], None, None
+    case_recs = []
     for i, l in enumerate(J, 1):
         t = l.split(" ", 1)
         h = t[0]
         if h == "case":
-            case = int(t[1]); prob = cs = solved = None; ops = []; last_obj_rec = None
+            case = int(t[1]); prob = cs = solved = None; ops = []; last_obj_rec = None; case_recs = []
+        elif h == "phase":
+            ops = []; last_obj_rec = None; case_recs = []      # the from-scratch solves run in a process of their own
         elif h == "prob":
             prob = l
         elif h == "cs":
@@ -157,13 +160,14 @@ def read_journal(path):
             if r.kind != "fresh":
                 r.prev = last_obj_rec
                 last_obj_rec = r
+                case_recs.append(r)
             recs.append(r)
             text = r.text
         elif h.startswith("#") and text is not None:
             text.append(l)
         elif h in ("crash", "exc"):
             events.append({"case": case, "ln": i, "what": l, "ops": ops[:], "prev": last_obj_rec,
-                           "prob": prob, "cs": cs})
+                           "prob": prob, "cs": cs, "recs": case_recs[:]})
     return J, recs, events
 
 
@@ -371,20 +375,26 @@ def run(ctx):
         else:
             stats["crash"] += 1
         last_op = e["ops"][-1] if e["ops"] else "?"
-        incr = e["prev"] is not None and not last_op.startswith("solve fresh") and "fresh" not in last_op
+        incr = e["prev"] is not None
         site = ("crash:" if w.startswith("crash") else "exception:") + ("incremental" if incr else "from-scratch")
         tags = []
         if " piv 1" in last_op:
             # Tableau::is_better_pivot is only reached under PIVOT_ROW_STRATEGY_MAX_COLUMN
             tags.append("pivot_row_strategy_max_column")
-        if incr and e["prob"] and e["prev"].verdict is not None and e["prev"].verdict[0] != "ok":
+        if incr and any(r.verdict is not None and r.verdict[0] != "ok" for r in e["recs"]):
             stats["crash_after_earlier_failure_of_the_same_object(not reported)"] += 1
             continue
-        if incr and e["prob"] and e["cs"]:
-            dim, params, big, rows = parse_rows(e["prob"], e["cs"])
-            pdim, pparams, pbig, prows = parse_rows(e["prev"].prob, e["prev"].cs)
-            ops_since = e["ops"]
-            tags += history_tags(e["prev"], dim, params, rows[len(prows):], ops_since)
+        if incr:
+            # memory damage may surface later than the solve that did it (even in the destructor): the structural
+            # facts of every re-solve of this object so far, and of the one in progress, are collected
+            for r in e["recs"]:
+                if r.prev is not None:
+                    d2, p2, new_rows = added_rows(r)
+                    tags += [x for x in history_tags(r.prev, d2, p2, new_rows, r.ops) if x not in tags]
+            if e["prob"] and e["cs"] and last_op != "destroy" and (e["prob"], e["cs"]) != (e["prev"].prob, e["prev"].cs):
+                dim, params, big, rows = parse_rows(e["prob"], e["cs"])
+                pdim, pparams, pbig, prows = parse_rows(e["prev"].prob, e["prev"].cs)
+                tags += [x for x in history_tags(e["prev"], dim, params, rows[len(prows):], e["ops"]) if x not in tags]
         fail_classes[(site, w, tuple(tags))] += 1
         ctx.violation("%s [case %d] %s during `%s`" % (site, e["case"], w, last_op),
                       replay_of(e["case"], {"event": w, "ops": e["ops"], "prob": e["prob"], "cs": e["cs"], "site": site, "tags": tags,
